@@ -446,7 +446,7 @@ pub fn run_job(spec: &JobSpec, progress: &dyn Fn(u64)) -> WorkerOut {
 }
 
 pub fn evidence_texts() -> (String, serde_json::Value, Vec<String>) {
-    let rule = "Scenarios are generated from (VERIF_SEED, run index): 1-3 searchers (AhoCorasick with every kind/option/match kind, the three Automaton types, packed::Searcher), 3-5 haystacks, 2-4 client threads with 2-8 operations each over the whole public search API (class conc) or one client with 12-40 operations (class hist), handoff pairs (an iterator started by one client is drained by another), a scheduling policy (uniform random with a preemption density, or PCT with d change points), and faults (client crash = panic thrown from the reader/writer/closure, stream I/O errors, dropped iterators, a stalled thread, clone/drop of the searcher, re-entrant nested search from inside a read/closure). One evaluation = one execution of the concurrent phase on real OS threads, exactly one of which runs at a time (baton), with yield points inside the library search loops (guarded hooks) and at every seam call; every operation's outcome is compared with the same operation executed alone on a freshly built private searcher, computed before and after the concurrent phase. Non-trivial: some operation reported a match and at least two context switches happened inside library loops (conc) / at least 8 operations ran on the long-lived searcher (hist). Distinct = distinct (scenario hash, interleaving hash) where the interleaving hash covers every context switch (from-thread, site, to-thread).".to_string();
+    let rule = "Scenarios are generated from (VERIF_SEED, run index): 1-3 searchers (AhoCorasick with every kind/option/match kind, the three Automaton types, packed::Searcher), 3-5 haystacks, 2-4 client threads with 2-8 operations each over the whole public search API (class conc) or one client with 12-40 operations (class hist), handoff pairs (an iterator started by one client is drained by another), a scheduling policy (uniform random with a preemption density, or PCT with d change points), and faults (client crash = panic thrown from the reader/writer/closure, stream I/O errors, dropped iterators, a stalled thread, clone/drop of the searcher incl. a clone that outlives the searcher it was cloned from, re-entrant nested search from inside a read/closure). One scenario in ten has a searcher with a 1-4 KiB pattern whose stream operations use the shipped buffer-capacity formula; 5% of the histories have 600-1500 operations on one searcher; one concurrent scenario in ten has 20-60 operations per thread, one in twelve 5-6 threads. One evaluation = one execution of the concurrent phase on real OS threads, exactly one of which runs at a time (baton), with yield points inside the library search loops (guarded hooks) and at every seam call; every operation's outcome is compared with the same operation executed alone on a freshly built private searcher, computed before and after the concurrent phase. Non-trivial: some operation reported a match and at least two context switches happened inside library loops (conc) / at least 8 operations ran on the long-lived searcher (hist). Distinct = distinct (scenario hash, interleaving hash) where the interleaving hash covers every context switch (from-thread, site, to-thread).".to_string();
     let components = serde_json::json!({
         "real_code": [
             "real OS threads (std::thread::scope) sharing real searchers by reference; AhoCorasick clones (Arc) made and dropped during the run",
@@ -456,7 +456,7 @@ pub fn evidence_texts() -> (String, serde_json::Value, Vec<String>) {
             "the choice of which thread runs (baton scheduler at hook yield points and seam calls; seeded or replayed from an explicit decision list)",
             "SimReader / SimWriter / scripted closure (as in streamsim), including panics thrown from inside them"
         ],
-        "second_engine": "Miri (free-running threads, seeded preemption, data-race detector) on reduced scenarios; see miri_* keys"
+        "second_engine": "Miri (free-running threads released by a barrier, seeded preemption at rates 0.01-0.5, data-race detector, isolation on) on reduced general scenarios and on high-contention first-use scenarios (one small searcher whose kind cycles with the index, 2-3 threads starting the same kind of search at once); see miri_* keys"
     });
     let assumptions = vec![
         "Only the baton holder runs library code, so interleavings are explored at hook/seam granularity; instruction-level races are left to the Miri batch.".to_string(),
